@@ -418,5 +418,34 @@ Proof.
     + rewrite obs_sd_cur_order, get_set_other by congruence. exact Hg.
     + rewrite obs_sd_cur_end, get_del_other by congruence. exact Hg.
 Qed.
+
+(* ---- threads: stop executions that found the instance Pending ------------------------------------------------ *)
+Definition pendst (p : stoppc) (k : iid) : Prop := p = SPend k \/ p = SPendE k.
+
+Lemma step_core_thr s th e s' : step_core s th e = Some s' -> own_ev e = false ->
+  (forall th', th' <> th -> spc (get_thread s' th') = spc (get_thread s th') /\ pend (get_thread s' th') = pend (get_thread s th')) /\
+  (forall k, pendst (spc (get_thread s' th)) k ->
+     spc (get_thread s' th) = spc (get_thread s th) \/
+     (e = EStopPending k /\ spc (get_thread s' th) = SPend k /\
+      exists x, get k (insts s) = Some x /\ status_eqb (st (vis_of s (nm x))) SPending = true) \/
+     (exists s0, e = EProcEnd k s0 /\ spc (get_thread s th) = SPend k /\ spc (get_thread s' th) = SPendE k /\
+                 pend (get_thread s' th) = Some (REndEarly k))).
+Proof.
+  intros H Hev. unfold step_core in H. destruct e; try discriminate Hev; kind_cases H.
+  all: try match goal with |- context[match dpc ?t with _ => _ end] => destruct (dpc t) as [| | |? [|? ?]| |] eqn:Ed end.
+  all: split; [intros th' Hne; unfold set_pc, end_finish; autorewrite with sup;
+               try rewrite (proj2 (N.eqb_neq th th')) by congruence;
+               repeat match goal with |- context[if ?b then _ else _] => destruct b end; autorewrite with sup;
+               try rewrite (proj2 (N.eqb_neq th th')) by congruence; split; reflexivity|].
+  all: intros k0; unfold set_pc, end_finish; autorewrite with sup; rewrite ?N.eqb_refl; cbn; try (intros _; left; reflexivity).
+  all: try (intros _; left; assumption).
+  all: try (intros [Hp|Hp]; discriminate Hp).
+  - intros [Hp|Hp]; [discriminate Hp|]. injection Hp as <-. split_andb. subst i1. right. right. exists s0. auto.
+  - intros [Hp|Hp]; [|discriminate Hp]. injection Hp as <-. right. left. split; [reflexivity|]. split; [reflexivity|]. eauto.
+  - destruct (i =? i2)%N; autorewrite with sup; rewrite N.eqb_refl; cbn; intros [Hp|Hp]; discriminate Hp.
+  - destruct (i =? i2)%N; autorewrite with sup; rewrite N.eqb_refl; cbn; intros [Hp|Hp]; discriminate Hp.
+  - destruct (i =? i2)%N; autorewrite with sup; rewrite N.eqb_refl; cbn; intros [Hp|Hp]; discriminate Hp.
+  - destruct ready; autorewrite with sup; intros _; left; reflexivity.
+Qed.
 (*STOP*)
 End RelC03.
